@@ -68,12 +68,13 @@ pub fn load_bytes(bytes: &[u8]) -> Option<&[u8]> {
     return None;
   }
 
-  let len: u32 = load_u32(&bytes[..4])?;
-  if bytes.len() < (4 + len) as usize {
+  let len = load_u32(&bytes[..4])? as usize;
+  let end = len.checked_add(4)?;
+  if bytes.len() < end {
     return None;
   }
 
-  Some(&bytes[4..4 + len as usize])
+  Some(&bytes[4..end])
 }
 
 /// An `AccessStructure` defines how a message is to be split among multiple parties
